@@ -347,3 +347,36 @@ Proof.
     rewrite (rapply_ext' ry (fun x => fst (q x) * _) (fun y => rapply rx (fun x => snd (p x)) * fst (q y))) by (intros y; ring).
     rewrite !rapply_scal. ring.
 Qed.
+
+(* ------------------------------------------------------------------ reversal of a certified, transferred rule *)
+Lemma cpint_reverse : forall cs (a b : R), cpint Rops cs b a = Copp (cpint Rops cs a b).
+Proof.
+  intros cs a b. apply pair_eq; unfold Copp; cbn [fst snd].
+  - rewrite !cpint_fst. unfold pint. change (Sc Rops) with R. ring.
+  - rewrite !cpint_snd. unfold pint. change (Sc Rops) with R. ring.
+Qed.
+
+Theorem rule_certificate_reverse : forall (r : rule Rops) (d : nat) (eps : R),
+  (forall k, (k <= d)%nat -> Rabs (moment r k - leg_moment k) <= eps) ->
+  forall (a b : R) (cs : list C), (length cs <= S d)%nat ->
+  Cmod (Cplus (apply_rule Rops (gq_transfer Rops r b a) (cpeval Rops cs)) (apply_rule Rops (gq_transfer Rops r a b) (cpeval Rops cs)))
+    <= 2 * (eps * Rabs (tr_u a b) * scale_cmod cs (tr_M a b)).
+Proof.
+  intros r d eps H a b cs Hl.
+  pose proof (rule_certificate_transfer r d eps H a b cs Hl) as H1.
+  pose proof (rule_certificate_transfer r d eps H b a cs Hl) as H2.
+  replace (Rabs (tr_u b a)) with (Rabs (tr_u a b)) in H2
+    by (unfold tr_u; replace ((a - b) / 2) with (- ((b - a) / 2)) by field; rewrite Rabs_Ropp; reflexivity).
+  replace (tr_M b a) with (tr_M a b) in H2.
+  2:{ unfold tr_M, tr_u, tr_v. replace ((a - b) / 2) with (- ((b - a) / 2)) by field. rewrite Rabs_Ropp.
+      replace (b + a) with (a + b) by ring. reflexivity. }
+  rewrite cpint_reverse in H2.
+  set (X := apply_rule Rops (gq_transfer Rops r b a) (cpeval Rops cs)) in *.
+  set (Y := apply_rule Rops (gq_transfer Rops r a b) (cpeval Rops cs)) in *.
+  set (I := cpint Rops cs a b) in *.
+  replace (Cplus X Y) with (Cplus (Cminus X (Copp I)) (Cminus Y I)).
+  2:{ clearbody X Y I. clear H1 H2. destruct X, Y, I. cbv [Cplus Cminus Copp fst snd]. f_equal; ring. }
+  eapply Rle_trans; [apply Cmod_triangle|]. lra.
+Qed.
+
+(* corollaries for the translated Simpson entry point are in C12_simpson.v / C12_simpson2d.v *)
